@@ -149,7 +149,7 @@ pub fn run(args: &[String]) -> i32 {
     let szv = std::mem::size_of::<Value>();
     let sze = std::mem::size_of::<(String, Value)>();
     let mut out = Out::new(dir);
-    crate::util::watchdog(dir, 5000);
+    crate::util::watchdog(dir, 15000);
     let mut rng = Rng::new(seed);
 
     // (i) exhaustive short strings over the fixed list of small schemas
